@@ -518,7 +518,7 @@ func appendedElems(T *Terms, v ssa.Value) []string {
 }
 
 func builtinDispatcherOf(p *Prog, ro *Roles) *ssa.Function {
-	entry := dispatchEntry(p, ro)
+	entry := dispatchView(p, ro)
 	if entry == nil {
 		return nil
 	}
